@@ -240,6 +240,18 @@ def check(ctx):
                 'otherwise resources are released although the next part arrives at the same instant', file=ET.mod.path, line=ET.node.lineno, detail={'members': mem})
     else:
         o5.witness('enum-order')
+    # ... and a higher one than the events that take the machine down (a work order starting or a failure striking at the instant the
+    # part is finished): a shutdown pauses the machine's pending events, the idle check among them, so a check that has not run yet
+    # leaves an idle, shut-down machine holding its resources for the whole downtime
+    o5.count()
+    downs = [k for k in ('START_WORK', 'FAIL') if k in mem]
+    late = [k for k in downs if not mem['RELEASE_RESERVED_RESOURCES'] > mem[k]]
+    if late:
+        ET = P.cls('EventType')
+        o5.fail(P, 'EventType', 'RELEASE_RESERVED_RESOURCES = auto()', f'the idle check must run before {" / ".join(late)} events of the same instant: taken down first, the machine '
+                'pauses its own idle check and keeps its resources, idle, until it is restored', file=ET.mod.path, line=ET.node.lineno, detail={'members': mem})
+    elif downs:
+        o5.witness('enum-order-down')
     o5.stats = {'EventType': mem}
     obs.extend([o3, o4, o5, o6])
     obs.append(ctx.shared('c09', 'C09.5', 'C11.7', 'a processor asks for its whole requirement in one reservation each time a part is offered; a refused reservation must leave '
